@@ -10,7 +10,7 @@ ENGINE = {'name': 'listener',
  'n_thorough': 1500,
  'timeout': 900,
  'serves': ['C13'],
- 'rule': 'scenarios: a fixed scenario with one connection per multi-matcher route, two fixed overlap scenarios (4 fall-through connections on one P, accepted at once, read late; once with a first prefetch that fills the pooled chunk exactly) plus VERIF_N random '
+ 'rule': 'scenarios: 27 fixed pending-at-close scenarios (capacity 1/2/4 x capacity, capacity+1, capacity+3 fall-through connections all queued in connChan or blocked in the send before the first Accept x Close before any Accept / after one / concurrently with the first), a fixed scenario with one connection per multi-matcher route plus streams that a non-terminal route hands on to a terminal one (whole and split so that the terminal route sees the raw bytes first) and a client still sending long after matching ended (read by a consumer that sets no deadline), two fixed overlap scenarios (4 fall-through connections on one P, accepted at once, read late; once with a first prefetch that fills the pooled chunk exactly) plus VERIF_N random '
          'scenarios of 2..10 connections over 11 connection kinds (fall through; fall through after a non-terminal handler consumed 5 bytes; '
          'fall through with a TLS state attached; fall through after matcher sets of 2-3 matchers whose first matcher reads the stream (set not matching / matching with a non-terminal handler that consumes nothing / a prefix); fall through with 3000+ bytes prefetched; fall through after a matcher stayed undecided until the matching buffer was nearly full (streams beyond MaxMatchingBytes in segments not aligned with the prefetch chunk); matched by a non-terminal route and then silent while later routes need more bytes; consumed by a terminal route; consumed and still being served when the listener is closed; rejected by a handler; '
          'matcher error; matching timeout; client hang-up while matching), streams of 1..4500 bytes in 1..40 segments, GOMAXPROCS (= connChan '
